@@ -69,6 +69,15 @@ def createNegotiate (upper utf16 : Bytes → Bytes) (domain workstation : Bytes)
   signature ++ putLe32 1 ++ putLe32 (negotiateFlags domain workstation unicode) ++
     descriptor d.length 40 ++ descriptor w.length (40 + d.length) ++ defaultVersion ++ d ++ w
 
+/-- `CreateNegotiateMessage` as a whole (fix C08-descriptor-length-guard): a descriptor carries the length of its
+    field as a 16-bit number, so `if len(domainBytes) > 0xFFFF || len(workstationBytes) > 0xFFFF { return nil, err }`
+    stands in front of the writes; `createNegotiate` is what follows the guard -/
+def createNegotiateMessage (upper utf16 : Bytes → Bytes) (domain workstation : Bytes) (unicode : Bool) : Outcome Bytes :=
+  let d := negName upper utf16 unicode domain
+  let w := negName upper utf16 unicode workstation
+  if d.length > 65535 ∨ w.length > 65535 then .err
+  else .ok (createNegotiate upper utf16 domain workstation unicode)
+
 /-! ## CreateAuthenticateMessage
 
 The LM and NT responses are computed by the functions of property C02 (they depend on the clock and
@@ -103,6 +112,15 @@ def createAuthenticate (upper utf16 : Bytes → Bytes) (flags : UInt32) (lm nt :
     (if flags &&& F_VERSION ≠ 0 then defaultVersion else zeros 8) ++
     zeros 16 ++
     lm ++ nt ++ n.domain ++ n.user ++ n.workstation
+
+/-- `CreateAuthenticateMessage` as a whole (fix C08-descriptor-length-guard): behind the computation of the two
+    responses, `for _, field := range [][]byte{lmResponse, ntResponse, domainBytes, usernameBytes, workstationBytes}
+    { if len(field) > 0xFFFF { return nil, err } }`; `createAuthenticate` is what follows the guard -/
+def createAuthenticateMessage (upper utf16 : Bytes → Bytes) (flags : UInt32) (lm nt : Bytes)
+    (user domain workstation : Bytes) : Outcome Bytes :=
+  let n := authNames upper utf16 flags user domain workstation
+  if [lm, nt, n.domain, n.user, n.workstation].any (fun field => field.length > 65535) then .err
+  else .ok (createAuthenticate upper utf16 flags lm nt user domain workstation)
 
 /-! ## ParseChallengeMessage -/
 
@@ -516,7 +534,8 @@ def processChallengeToken (upper utf16 : Bytes → Bytes) (token user domain wor
   else do
     let inner ← extractNTLMToken token
     let c ← parseChallenge inner
-    pure (wrapInit (some (createAuthenticate upper utf16 c.flags lm nt user domain workstation)))
+    let m ← createAuthenticateMessage upper utf16 c.flags lm nt user domain workstation
+    pure (wrapInit (some m))
 
 /-! ## Specification -/
 
@@ -645,13 +664,13 @@ def gssInit (t : Option Bytes) : Bytes :=
     der 0x30 (der 0xA0 (der 0x30 ntlmOidTLV) ++
       (match t with | none => [] | some t => der 0xA2 (der 0x04 t))))
 
+/-- MS-NLMP 2.2.1: `Len` and `MaxLen` of a field descriptor are 16-bit numbers — a message exists only for fields
+    shorter than 64 KiB; a builder has to refuse anything longer -/
+def fieldsFit (fields : List Bytes) : Bool := fields.all (fun f => decide (f.length < 65536))
+
 end Spec
 
 /-! ## Known findings (executable predicates) -/
-
-/-- a field whose encoding is 64 KiB or longer cannot be described by a 16-bit length: the library
-    truncates `uint16(len)` silently instead of refusing -/
-def KnownBad_field64k (fields : List Bytes) : Bool := fields.any (fun f => f.length ≥ 65536)
 
 /-- an empty token (nil: omitted from the NegTokenInit; empty: written as an empty OCTET STRING) is
     reported as "no NTLM token found" by the extraction -/
